@@ -94,6 +94,9 @@ def run_check(prop, tier, seed, args):
     for pr in profiles.values():
         # minimisation budget per violating run
         pr["min_execs"], pr["min_wall"] = (150, 25.0) if tier == "quick" else (400, 90.0)
+        if tier != "quick":
+            # deeper local enumeration in the thorough tier
+            pr.update({"enum_max_execs": 120, "cap_gen": 100, "cap_gstate": 150})
     wall_cap = args.wall if args.wall else (600 if tier == "quick" else 3 * 3600)
     deadline = t0 + wall_cap
     agg = {
@@ -127,7 +130,7 @@ def run_check(prop, tier, seed, args):
             tasks = [(chunk_task, (prop, seed, ch, profiles[b], not args.no_minimise))
                      for ch in chunk_lists]
             _, skipped = run_pool(tasks, args.jobs, deadline=deadline, on_result=on_result)
-            if b != "abort_enum" and time.time() < deadline:
+            if b not in ("abort_enum", "conc_enum") and time.time() < deadline:
                 isolation_probes(prop, seed, b, profiles[b], chunk_lists, agg, args,
                                  24 if tier == "quick" else 250)
             per["wall_s"] = round(time.time() - tb, 2)
